@@ -9,6 +9,7 @@ import Proofs.C04Bind
 import Proofs.C04Ctx
 import Proofs.C04Cmp
 import Proofs.C04Date
+import Proofs.C04Parts
 import Proofs.C04Spec17
 import Proofs.C04Order
 import Proofs.C04Fix2
